@@ -141,7 +141,7 @@ def smart_tiers(F, rep, rule):
     ts, e1 = tier_tree(F, st); tc, e2 = tier_tree(F, ca)
     if ts is None or tc is None:
         if "ATOM-KIND" in str(e1) + str(e2): rep.bad(rule, "tier-atom-kind", "smart tier selection: %s" % (e1 or e2), st.where()); return None
-        rep.bad(rule, "unrecognised-shape:tier-tree", "tier decision tree not extractable: %s / %s" % (e1, e2), st.where()); return None
+        rep.undecided(rule, "unrecognised-shape:tier-tree", "tier decision tree not extractable: %s / %s" % (e1, e2), st.where()); return None
     iso = all(ts[k][0].replace("standard_", "") == tc[k][0].replace("calver_", "") and ts[k][1] == tc[k][1] for k in ts)
     if iso: rep.ok(rule, "standard and calver tier trees are isomorphic on all 16 assignments of (dirty, distance>0, pre, post)", nontrivial_key="iso")
     else:
@@ -194,7 +194,7 @@ def sanitizer_presets(F, rep, rule, names):
         rep.fn_seen(f)
         want = PRESETS[nm]
         if got is None:
-            rep.bad(rule, "unrecognised-shape:preset:" + nm, "cannot read the constant configuration of Sanitizer::%s" % nm, f.where()); continue
+            rep.undecided(rule, "unrecognised-shape:preset:" + nm, "cannot read the constant configuration of Sanitizer::%s" % nm, f.where()); continue
         diff = {k: (got.get(k), v) for k, v in want.items() if got.get(k) != v}
         if diff: rep.bad(rule, "preset-config:" + nm, "Sanitizer::%s is configured with %s (got, expected): e.g. a max_length silently truncates identifiers" % (nm, diff), f.where())
         else: rep.ok(rule, "Sanitizer::%s = %s" % (nm, want), nontrivial_key="preset" + nm)
